@@ -66,9 +66,25 @@ pub fn evaluate_const_expr(expr: &typed_ast::Expression) -> Result<Exponent> {
                     }
                     typed_ast::BinaryOperator::Power => {
                         if rhs.is_integer() {
+                            // A negative exponent is the reciprocal of the positive power
+                            let (base, exponent) = if rhs < Rational::zero() {
+                                if lhs == Rational::zero() {
+                                    return Err(Box::new(
+                                        TypeCheckError::DivisionByZeroInConstEvalExpression(
+                                            e.full_span(),
+                                        ),
+                                    ));
+                                }
+                                let exponent = rhs.to_integer().checked_neg().ok_or_else(|| {
+                                    TypeCheckError::OverflowInConstExpr(expr.full_span())
+                                })?;
+                                (lhs.recip(), exponent)
+                            } else {
+                                (lhs, rhs.to_integer())
+                            };
                             Ok(num_traits::checked_pow(
-                                lhs,
-                                rhs.to_integer().try_into().map_err(|_| {
+                                base,
+                                exponent.try_into().map_err(|_| {
                                     TypeCheckError::OverflowInConstExpr(expr.full_span())
                                 })?,
                             )
